@@ -3,6 +3,7 @@ import Upf.Proofs.NewPool
 import Upf.Proofs.Lockset
 import Upf.Model.LockFacts
 import Upf.Proofs.PoolWorld
+import Upf.Proofs.History
 /-!
 # C06 — UE IP pool: in range, exclusive, sticky, conserved
 
@@ -80,7 +81,7 @@ example :
 /-! ### at the level of the agent: the pool as the handlers use it (BESS agent model, any number of associations) -/
 
 /-- **along every history** of association setups, PFD updates, establishments (accepted, or refused at any point after an address was
-taken), deletions, reports "context not found", association endings and FAR-updating modifications, starting from the freshly built
+taken), deletions, reports "context not found", association endings, FAR-updating and rule-removing modifications, starting from the freshly built
 pool: the pool invariant holds (free ++ held is a permutation of the configured addresses — so no address is held twice and none is
 lost — and no session holds two), and every held address is held under the SEID of a stored session -/
 theorem pool_invariant_along_every_history (base : List Nat) (hb : base.Nodup) (cfg : Agent.Cfg) (g : Teid.G) (evs : List Agent.Ev)
